@@ -30,13 +30,13 @@ static ByteString vp_pending;   // data given to signUpdate / verifyUpdate, repo
 bool MacAlgorithm::signUpdate(const ByteString& d) { rec(d, -1, 0); return IN(prim_ok) != 0; }
 bool MacAlgorithm::signFinal(ByteString& signature) { OUT(fin_n)++; return produce(signature); }
 bool MacAlgorithm::verifyUpdate(const ByteString& d) { rec(d, -1, 0); return IN(prim_ok) != 0; }
-bool MacAlgorithm::verifyFinal(ByteString& signature) { OUT(prim_siglen) = signature.size(); return IN(prim_ok) != 0; }
+bool MacAlgorithm::verifyFinal(ByteString& signature) { OUT(fin_n)++; OUT(prim_siglen) = signature.size(); return IN(prim_ok) != 0; }
 bool AsymmetricAlgorithm::sign(PrivateKey*, const ByteString& d, ByteString& signature, const AsymMech::Type m, const void*, const size_t) { rec(d, (int)m, 0); return produce(signature); }
 bool AsymmetricAlgorithm::signUpdate(const ByteString& d) { rec(d, -2, 0); return IN(prim_ok) != 0; }
 bool AsymmetricAlgorithm::signFinal(ByteString& signature) { OUT(fin_n)++; return produce(signature); }
 bool AsymmetricAlgorithm::verify(PublicKey*, const ByteString& d, const ByteString& signature, const AsymMech::Type m, const void*, const size_t) { rec(d, (int)m, signature.size()); return IN(prim_ok) != 0; }
 bool AsymmetricAlgorithm::verifyUpdate(const ByteString& d) { rec(d, -2, 0); return IN(prim_ok) != 0; }
-bool AsymmetricAlgorithm::verifyFinal(const ByteString& signature) { OUT(prim_siglen) = signature.size(); return IN(prim_ok) != 0; }
+bool AsymmetricAlgorithm::verifyFinal(const ByteString& signature) { OUT(fin_n)++; OUT(prim_siglen) = signature.size(); return IN(prim_ok) != 0; }
 bool AsymmetricAlgorithm::encrypt(PublicKey*, const ByteString& d, ByteString& encryptedData, const AsymMech::Type m) { rec(d, (int)m, 0); return produce(encryptedData); }
 
 // ---- digest operation
@@ -60,4 +60,9 @@ extern "C" CK_RV vp_verify1(void)
 {
 	SETUP; unsigned char sig[VP_OUTW]; for (int i = 0; i < VP_OUTW; i++) sig[i] = vp_in_sig[i % VP_SIG];
 	CK_RV rv = hsm->C_Verify(SES(HSESSION), &data[0], IN(datalen), SES(NULL_OUT) ? (CK_BYTE_PTR)0 : &sig[0], IN(siglen_in)); FINISH;
+}
+extern "C" CK_RV vp_verifyfinal1(void)
+{
+	SETUP; unsigned char sig[VP_OUTW]; for (int i = 0; i < VP_OUTW; i++) sig[i] = vp_in_sig[i % VP_SIG];
+	CK_RV rv = hsm->C_VerifyFinal(SES(HSESSION), SES(NULL_OUT) ? (CK_BYTE_PTR)0 : &sig[0], IN(siglen_in)); FINISH;
 }
